@@ -584,6 +584,50 @@ def gen_unloadable(chk, cases):
         cases.append(Case(t, bad, kind="unloadable/render"))
 
 
+def gen_miss_history(chk, cases):
+    """long histories of lookups that find nothing (include lists with missing candidates, ignore missing) in ONE context,
+    followed by legitimate depth-checked work: a missed include must give back what it charged against the recursion limit"""
+    MISS1, MISS2, ROW, BASE = 8, 9, 10, 5
+    NEST0 = 11                                  # t11 includes t12 includes ... (a legitimate nesting of depth k)
+    def nest(k):
+        t = {NEST0 + i: [text("n%d(" % i), inc([lit(NEST0 + i + 1)]), text(")")] for i in range(k - 1)}
+        t[NEST0 + k - 1] = [text("leaf")]
+        return t
+    def tails(k):
+        return {"include": [inc([lit(ROW)])], "block": [blk(B, [text("blk")])], "for": [("for", 1, [text("it")])],
+                "nest%d" % k: [inc([lit(NEST0)])], "list": [inc([lit(MISS2), lit(ROW)], False, 1)]}
+    def misses(form, n):
+        if form == "loop-ignore": return [("for", n, [inc([lit(MISS1), lit(MISS2)], True, 1)])]
+        if form == "loop-fallback": return [("for", n, [inc([lit(MISS1), lit(ROW)], False, 1)])]
+        if form == "loop-single-ignore": return [("for", n, [inc([lit(MISS1)], True)])]
+        if form == "sequence": return [inc([lit(MISS1)], True) for _ in range(n)]
+        if form == "sequence-list": return [inc([lit(MISS1), lit(MISS2), lit(ROW)], False, 1) for _ in range(n)]
+    def build(where, body):
+        if where == "top": return {1: [text("M(")] + body + [text(")")]}
+        if where == "block": return {1: [text("M("), blk(A, body), text(")")]}
+        if where == "child-block": return {1: [("extends", lit(BASE)), blk(A, body + [SUPER])], BASE: [text("B("), blk(A, [text("ba")]), text(")")]}
+    world = {ROW: [text("r")]}
+    # default limit: 49 misses would exhaust it if they leaked
+    for n in (3, 10, 48, 49, 50, 60, 120, 200):
+        for form in ("loop-ignore", "loop-fallback", "loop-single-ignore", "sequence", "sequence-list"):
+            if form.startswith("sequence") and n > 120:
+                continue
+            for where in ("top", "block", "child-block"):
+                for tname, tail in tails(6).items():
+                    if where != "top" and tname in ("for", "list"):
+                        continue
+                    t = dict(world); t.update(nest(6)); t.update(build(where, misses(form, n) + [text("|")] + tail))
+                    cases.append(Case(t, 1, kind="miss-history/%s/%s/%d" % (where, form, n)))
+    # small limits: a few misses, then a nesting right at the limit (both sides of the boundary)
+    for k in (1, 2, 3, 4):
+        for lim in (10 * k + 1, 10 * k + 2, 10 * k + 3, 10 * k + 5, 10 * k + 9):
+            for n in (0, 1, 2, 5):
+                for form in ("loop-ignore", "sequence", "sequence-list"):
+                    for where in ("top", "block"):
+                        t = dict(world); t.update(nest(k)); t.update(build(where, misses(form, n) + [text("|"), inc([lit(NEST0)])]))
+                        cases.append(Case(t, 1, lim=lim, kind="miss-history-limit/%s/%s" % (where, form)))
+
+
 def gen_variants(chk, cases):
     """the same configurations served lazily through a loader, and under a path join callback with relative names"""
     rng = chk.rng
@@ -656,6 +700,7 @@ def all_cases(chk):
     gen_errors(chk, cases)
     gen_placements(chk, cases)
     gen_unloadable(chk, cases)
+    gen_miss_history(chk, cases)
     gen_outside_fragment(chk, cases)
     gen_variants(chk, cases)
     return cases
@@ -752,7 +797,7 @@ def main():
     chk.cov["distinct_nontrivial"] = len(nontriv)
     chk.cov["rule"] = ("exhaustive: every assignment of {absent, override, override + super() before, override + super() after} (+ nesting of c inside a) to blocks a, c for chains of 1-3 templates"
                        + (" and 4 templates" if chk.thorough else "; 4-template chains and the 3-block alphabet are seeded samples")
-                       + "; dynamic / conditional extends over all 2-template assignments + samples; EMPTY definitions at every level (exhaustive over one block for 2-4 templates); include / import placements (top level, for loop, macro, block, block of an extending template) x naming forms x targets; templates that exist but do not load (syntax error / failing loader) in include lists, with ignore missing, import, extends, render; a sample of all configurations served through Environment::set_loader and under a path join callback with relative names; cycles, double extends, missing templates, include cycles, recursion depth boundaries, required blocks. "
+                       + "; dynamic / conditional extends over all 2-template assignments + samples; EMPTY definitions at every level (exhaustive over one block for 2-4 templates); include / import placements (top level, for loop, macro, block, block of an extending template) x naming forms x targets; templates that exist but do not load (syntax error / failing loader) in include lists, with ignore missing, import, extends, render; a sample of all configurations served through Environment::set_loader and under a path join callback with relative names; histories of 3-200 missed include lookups (loops over include lists with missing candidates, ignore missing, in sequence) followed by includes / blocks / loops / nestings, at the default limit and at small limits right at the boundary; cycles, double extends, missing templates, include cycles, recursion depth boundaries, required blocks. "
                        "Each case is rendered by the engine in a debug and a release build and evaluated by the extracted model and specification. "
                        "non-trivial = distinct (templates, context) with at least two templates whose render is a non-empty text or an error")
     chk.cov["exhaustive"] = False
